@@ -199,6 +199,33 @@ class _ChronMixin:
         self.chron.append(("app", kind) + tuple(data))
 
 
+def make_settle(world):
+    """``world.settle`` with a constant-time early exit when nothing is runnable at the current virtual instant
+    (the original scans every pending timer of the shared world on each call).  Same effect otherwise: it
+    delegates to ``world.settle``."""
+    slow = world.settle
+    if world.fw == "tx":
+        clock = world.clock
+
+        def settle():
+            calls = clock.calls              # twisted.internet.task.Clock keeps them sorted by time
+            if calls and calls[0].getTime() <= clock.rightNow:
+                slow()
+        return settle
+    loop = world.loop
+
+    def settle():
+        # AioWorld.settle without the scan: run the loop while a callback is ready or a timer is due now
+        for _ in range(10000):
+            sched = loop._scheduled          # heap ordered by deadline (cancelled handles included: harmless)
+            if not loop._ready and not (sched and sched[0]._when <= loop._vtime):
+                return
+            loop.call_soon(loop.stop)
+            loop.run_forever()
+        raise RuntimeError("settle: livelock")
+    return settle
+
+
 class FastTxEndpoint(_ChronMixin, _world.TxEndpoint):
     def __init__(self, world, name, host, peer):
         _world.EndpointBase.__init__(self, world, name)
@@ -211,6 +238,19 @@ class FastAioEndpoint(_ChronMixin, _world.AioEndpoint):
         _world.EndpointBase.__init__(self, world, name)
         self._chron_init()
         self.transport = FastAioTransport(self, host, peer)
+        self._settle = getattr(world, "_c02_settle", None) or world.settle
+
+    def feed(self, data):
+        """copy of ``AioEndpoint.feed`` (vf/world.py) with the early-exit settle"""
+        if self.lost or not data or self.close_requested is not None:
+            return
+        self.log("feed", len(data))
+        try:
+            self.proto.data_received(bytes(data))
+        except Exception as e:
+            self._escaped("data_received", e)
+            self._lose_with(e)
+        self._settle()
 
 
 _ADDRS = None
@@ -241,7 +281,7 @@ def attach(world, factory, name):
         proto.connection_made(ep.transport)
     except Exception as e:
         ep._escaped("connection_made", e)
-    world.settle()
+    (getattr(world, "_c02_settle", None) or world.settle)()
     return ep
 
 
@@ -256,7 +296,7 @@ def open_server(ws, factory, extensions=None):
         _REQ_CACHE[k] = ref.client_request(extensions=extensions)
     request, key = _REQ_CACHE[k]
     s.feed(request)
-    ws.world.settle()
+    (getattr(ws.world, "_c02_settle", None) or ws.world.settle)()
     out = s.take_output()
     return s, out, key
 
@@ -264,7 +304,7 @@ def open_server(ws, factory, extensions=None):
 def open_client(ws, factory, extensions=None):
     """One real client endpoint after a completed opening handshake (the harness is the server)."""
     c = attach(ws.world, factory, "client")
-    ws.world.settle()
+    (getattr(ws.world, "_c02_settle", None) or ws.world.settle)()
     req = c.take_output()
     key = None
     parsed = ref.parse_http_head(req)
@@ -272,7 +312,7 @@ def open_client(ws, factory, extensions=None):
         key = (parsed[1].get("sec-websocket-key") or [None])[0]
     if key:
         c.feed(ref.server_response(key, extensions=extensions))
-        ws.world.settle()
+        (getattr(ws.world, "_c02_settle", None) or ws.world.settle)()
     return c, req, key
 
 
